@@ -12,3 +12,4 @@ import Scfg.Model.Iter
 import Scfg.Spec.GraphDefs
 import Scfg.Spec.IterSpec
 import Scfg.Model.Bytecode
+import Scfg.Model.Dispatch
